@@ -5,11 +5,11 @@ import AiocoapModel.Observe.Client
 
 `Aiocoap.MsgLayer` models `MessageManager` + `TokenManager`; its outputs `.response r w final`
 and `.fail r kind` are the events put on the `Pipe` of client request `r`
-(`tokenmanager.py:207` `request.add_response(response, is_last=final)`, `:245`/`dispatch_error`
+(`tokenmanager.py:217` `request.add_response(response, is_last=final)`, `:267`/`dispatch_error`
 `request.add_exception(...)`).  Here they are fed to the runner of that request
 (`Aiocoap.Observe.step`), and the one thing that flows back is modelled too: when the runner (or
 the application, by cancelling the response future) withdraws from the pipe, the pipe ends and the
-hook the token manager registered (`tokenmanager.py:240`
+hook the token manager registered (`tokenmanager.py:261`
 `request.on_interest_end(functools.partial(self.outgoing_requests.pop, key, None))`) forgets the
 request — `MsgLayer.dropOutgoing`.  In the code that happens in the middle of
 `process_response`; nothing the message layer does afterwards in the same call (`_send_empty_ack`)
